@@ -102,6 +102,13 @@ def direct(rep, t, rnd):
         if k % 3 == 0:
             jb = jb + ({"max_iter": rnd.choice([0, 1, 1, 2, 3, 5, 200])},)       # the documented iteration budget of the descent
         jobs.append(jb)
+    # the multi-phase routine on colours next to a gamut corner (cyan, yellow, ...), where its second phase - the descent - is
+    # the one that moves: short schedules, so that a step which is not measured from the ORIGINAL colour shows
+    for k in range(6000 if t == "quick" else 150000):
+        text = pairs.cube_corner(rnd)
+        bg = pairs.rand_colour(rnd)
+        sched = rnd.choice([[3.0], [2.5, 3.0], [1.0, 2.0, 3.0], [5.0], [0.8, 1.6, 2.4]])
+        jobs.append(("gac", text, bg, sched, rnd.choice([3.0, 4.5, 7.0]), bool(k & 1)))
     evs0 = vlib.pool_map(_call, jobs, chunksize=16)
     evs = [e for i_, e in enumerate(evs0) if e is not None and (i_ < n or e.get("out") and e["out"] != e["in"] or i_ % 10 == 0)]
     # follow-up calls: wherever a routine moved the colour by d, it is asked again with a tolerance a little BELOW d
